@@ -369,4 +369,136 @@ theorem getElem?_enumerate_eq {α : Type} (l : List α) (k : Nat) (x : Keyed Nat
 
 end lookups
 
+/-! ### E. instruments -/
+section instruments
+open BarterModel.Index (Kind Units Spec specUnitAsset)
+variable {ε E A B : Type}
+
+theorem mapAssetKey_error_iff (f : A → Except ε B) (i : Instrument E A) (x : ε) :
+    i.mapAssetKeyWithLookup f = .error x ↔ firstError f i.assetRefs = some x := by
+  obtain ⟨e, ni, ne, b, q, qa, k, sp⟩ := i
+  simp only [Instrument.mapAssetKeyWithLookup, Instrument.assetRefs]
+  cases hb : f b <;> simp only [firstError, List.cons_append, List.nil_append, hb]
+  · simp
+  cases hq : f q <;> simp only []
+  · simp
+  cases k with
+  | spot =>
+    simp only [kindMapE, Kind.settlementAsset, Option.toList, List.nil_append]
+    cases sp with
+    | none => simp [specMapE, specUnitAsset, firstError]
+    | some s =>
+      obtain ⟨pm, tk, u, qm, qi, nm⟩ := s
+      cases u with
+      | asset a => cases ha : f a <;> simp [specMapE, specUnitAsset, firstError, ha, Except.map]
+      | contract => simp [specMapE, specUnitAsset, firstError]
+      | quote => simp [specMapE, specUnitAsset, firstError]
+  | perpetual z a0 =>
+    simp only [kindMapE, Kind.settlementAsset, Option.toList, List.cons_append, List.nil_append]
+    cases h0 : f a0 <;> simp only [firstError, h0, Except.map]
+    · simp
+    cases sp with
+    | none => simp [specMapE, specUnitAsset, firstError]
+    | some s =>
+      obtain ⟨pm, tk, u, qm, qi, nm⟩ := s
+      cases u with
+      | asset a => cases ha : f a <;> simp [specMapE, specUnitAsset, firstError, ha, Except.map]
+      | contract => simp [specMapE, specUnitAsset, firstError]
+      | quote => simp [specMapE, specUnitAsset, firstError]
+  | future z a0 ex =>
+    simp only [kindMapE, Kind.settlementAsset, Option.toList, List.cons_append, List.nil_append]
+    cases h0 : f a0 <;> simp only [firstError, h0, Except.map]
+    · simp
+    cases sp with
+    | none => simp [specMapE, specUnitAsset, firstError]
+    | some s =>
+      obtain ⟨pm, tk, u, qm, qi, nm⟩ := s
+      cases u with
+      | asset a => cases ha : f a <;> simp [specMapE, specUnitAsset, firstError, ha, Except.map]
+      | contract => simp [specMapE, specUnitAsset, firstError]
+      | quote => simp [specMapE, specUnitAsset, firstError]
+  | option z a0 p xx ex st =>
+    simp only [kindMapE, Kind.settlementAsset, Option.toList, List.cons_append, List.nil_append]
+    cases h0 : f a0 <;> simp only [firstError, h0, Except.map]
+    · simp
+    cases sp with
+    | none => simp [specMapE, specUnitAsset, firstError]
+    | some s =>
+      obtain ⟨pm, tk, u, qm, qi, nm⟩ := s
+      cases u with
+      | asset a => cases ha : f a <;> simp [specMapE, specUnitAsset, firstError, ha, Except.map]
+      | contract => simp [specMapE, specUnitAsset, firstError]
+      | quote => simp [specMapE, specUnitAsset, firstError]
+
+theorem firstError_none_iff (f : A → Except ε B) (l : List A) :
+    firstError f l = none ↔ ∀ a ∈ l, ∃ b, f a = .ok b := by
+  induction l with
+  | nil => simp [firstError]
+  | cons a t ih =>
+    simp only [firstError, List.mem_cons, forall_eq_or_imp]
+    cases f a <;> simp [ih]
+
+theorem firstError_some_iff (f : A → Except ε B) (l : List A) (x : ε) :
+    firstError f l = some x ↔
+      ∃ pre a post, l = pre ++ a :: post ∧ (∀ p ∈ pre, ∃ b, f p = .ok b) ∧ f a = .error x := by
+  induction l with
+  | nil => simp [firstError]
+  | cons a t ih =>
+    simp only [firstError]
+    cases ha : f a with
+    | error y =>
+      constructor
+      · intro h; cases h
+        exact ⟨[], a, t, rfl, by simp, ha⟩
+      · rintro ⟨pre, a', post, hl, hpre, ha'⟩
+        cases pre with
+        | nil => simp at hl; obtain ⟨rfl, _⟩ := hl; rw [ha] at ha'; cases ha'; rfl
+        | cons p pre =>
+          simp at hl; obtain ⟨rfl, _⟩ := hl
+          obtain ⟨b, hb⟩ := hpre a (by simp)
+          rw [ha] at hb; cases hb
+    | ok b0 =>
+      simp only [ih]
+      constructor
+      · rintro ⟨pre, a', post, rfl, hpre, ha'⟩
+        exact ⟨a :: pre, a', post, rfl, by
+          intro p hp; rcases List.mem_cons.mp hp with rfl | hp
+          · exact ⟨b0, ha⟩
+          · exact hpre p hp, ha'⟩
+      · rintro ⟨pre, a', post, hl, hpre, ha'⟩
+        cases pre with
+        | nil => simp at hl; obtain ⟨rfl, _⟩ := hl; rw [ha] at ha'; cases ha'
+        | cons p pre =>
+          simp at hl; obtain ⟨rfl, rfl⟩ := hl
+          exact ⟨pre, a', post, rfl, fun p hp => hpre p (by simp [hp]), ha'⟩
+
+end instruments
+
+/-! ### F. string-named definitions seen by the builder -/
+section erase
+
+theorem mem_all (e : ExchangeId) : e ∈ ExchangeId.all := by cases e <;> decide
+
+theorem ofNat?_toNat (e : ExchangeId) : ExchangeId.ofNat? e.toNat = some e := by cases e <;> rfl
+
+theorem toNat_inj {a b : ExchangeId} (h : a.toNat = b.toNat) : a = b := by
+  have := ofNat?_toNat a
+  rw [h, ofNat?_toNat] at this
+  exact (Option.some.inj this).symm
+
+theorem toNat_lt (e : ExchangeId) : e.toNat < 42 := by cases e <;> decide
+
+theorem toDef_assetRefs (d : SDef) :
+    BarterModel.Index.Instrument.assetRefs (toDef d) = d.assetRefs.map Asset.erase := by
+  obtain ⟨e, ni, ne, b, q, qa, k, sp⟩ := d
+  cases k <;> cases sp <;>
+    simp [toDef, BarterModel.Index.Instrument.assetRefs, Instrument.assetRefs, kindMap, specMap,
+      BarterModel.Index.Kind.settlementAsset, BarterModel.Index.specUnitAsset]
+  all_goals (rename_i s; obtain ⟨pm, tk, u, qm, qi, nm⟩ := s; cases u <;> simp)
+
+theorem except_cases {ε α : Type} (r : Except ε α) : (∃ a, r = .ok a) ↔ ¬ ∃ x, r = .error x := by
+  cases r <;> simp
+
+end erase
+
 end BarterModel.Names
